@@ -3,6 +3,7 @@
 # IDL equivalent:
 #   service VerifService {
 #     string echo(1: string s), i64 add(1: i32 a, 2: i64 b), Pair swap(1: Pair p),
+#     string lock(1: string key, 2: i32 timeout),
 #     bool flag(1: bool b, 2: double d), void ping(),
 #     string fail(1: string why) throws (1: VerifError err),
 #     void vfail(1: string why) throws (1: VerifError err),
@@ -23,6 +24,9 @@ class Iface(object):
         pass
 
     def add(self, a, b):
+        pass
+
+    def lock(self, key, timeout):
         pass
 
     def swap(self, p):
@@ -53,6 +57,7 @@ class Processor(Iface, TProcessor):
         self._processMap = {}
         self._processMap["echo"] = Processor.process_echo
         self._processMap["add"] = Processor.process_add
+        self._processMap["lock"] = Processor.process_lock
         self._processMap["swap"] = Processor.process_swap
         self._processMap["flag"] = Processor.process_flag
         self._processMap["ping"] = Processor.process_ping
@@ -124,6 +129,29 @@ class Processor(Iface, TProcessor):
             msg_type = TMessageType.EXCEPTION
             result = TApplicationException(TApplicationException.INTERNAL_ERROR, 'Internal error')
         oprot.writeMessageBegin("add", msg_type, seqid)
+        result.write(oprot)
+        oprot.writeMessageEnd()
+        oprot.trans.flush()
+
+    def process_lock(self, seqid, iprot, oprot):
+        args = lock_args()
+        args.read(iprot)
+        iprot.readMessageEnd()
+        result = lock_result()
+        try:
+            result.success = self._handler.lock(args.key, args.timeout)
+            msg_type = TMessageType.REPLY
+        except TTransport.TTransportException:
+            raise
+        except TApplicationException as ex:
+            logging.exception('TApplication exception in handler')
+            msg_type = TMessageType.EXCEPTION
+            result = ex
+        except Exception:
+            logging.exception('Unexpected exception in handler')
+            msg_type = TMessageType.EXCEPTION
+            result = TApplicationException(TApplicationException.INTERNAL_ERROR, 'Internal error')
+        oprot.writeMessageBegin("lock", msg_type, seqid)
         result.write(oprot)
         oprot.writeMessageEnd()
         oprot.trans.flush()
@@ -360,6 +388,35 @@ class add_result(TBase):
 all_structs.append(add_result)
 add_result.thrift_spec = (
     (0, TType.I64, 'success', None, None, ),  # 0
+)
+
+
+class lock_args(TBase):
+    __slots__ = ('key', 'timeout')
+
+    def __init__(self, key=None, timeout=None):
+        self.key = key
+        self.timeout = timeout
+
+
+all_structs.append(lock_args)
+lock_args.thrift_spec = (
+    None,  # 0
+    (1, TType.STRING, 'key', 'UTF8', None, ),  # 1
+    (2, TType.I32, 'timeout', None, None, ),  # 2
+)
+
+
+class lock_result(TBase):
+    __slots__ = ('success',)
+
+    def __init__(self, success=None):
+        self.success = success
+
+
+all_structs.append(lock_result)
+lock_result.thrift_spec = (
+    (0, TType.STRING, 'success', 'UTF8', None, ),  # 0
 )
 
 
